@@ -284,12 +284,20 @@ void small_free_memory_list::insert(void* mem, std::size_t size) noexcept
 
 std::size_t small_free_memory_list::usable_size(std::size_t size) const noexcept
 {
+    // same layout as insert(): full chunks are separated by the alignment buffer,
+    // the rest becomes a smaller chunk if it holds at least one node, only whole nodes count
     auto total_chunk_size = chunk_memory_offset + node_size_ * chunk_max_nodes;
-    auto no_chunks        = size / total_chunk_size;
-    auto remainder        = size % total_chunk_size;
+    auto align_buffer     = align_offset(total_chunk_size, alignof(chunk));
+    auto no_chunks        = size / (total_chunk_size + align_buffer);
+    auto remainder        = size % (total_chunk_size + align_buffer);
 
-    return no_chunks * chunk_max_nodes * node_size_
-           + (remainder > chunk_memory_offset ? remainder - chunk_memory_offset : 0u);
+    auto no_nodes = no_chunks * chunk_max_nodes;
+    if (remainder >= chunk_memory_offset + node_size_)
+    {
+        auto rest = (remainder - chunk_memory_offset) / node_size_;
+        no_nodes += rest > chunk_max_nodes ? chunk_max_nodes : rest;
+    }
+    return no_nodes * node_size_;
 }
 
 void* small_free_memory_list::allocate() noexcept
